@@ -298,7 +298,14 @@ def _ancestors_until(n: ast.AST, stop: ast.AST):
         n = parent(n)
 
 
+def rule_own_fields(ctx: Ctx, rep: Report) -> None:
+    """C06.own_fields: an object hands its own fields to the functions it delegates to (see sigcommon.rule_own_fields_forwarded)."""
+    from rules.sigcommon import rule_own_fields_forwarded
+    rule_own_fields_forwarded(ctx, rep, "C06.own_fields", ('btclib.script.script_pub_key', 'btclib.bip21'), 5)
+
+
 RULES = [
+    ("C06.own_fields", rule_own_fields),
     ("C06.one_network", rule_one_network),
     ("C06.network_membership", rule_network_membership),
     ("C06.checksum_gate", rule_checksum_gate),
